@@ -132,8 +132,14 @@ func GenSyscallGroup(r *mon.Rand, o EventOpts) Group {
 		if r.Chance(1, 4) {
 			nt = "objtype" // older kernels
 		}
-		add(fmt.Sprintf("type=PATH %s item=%d name=\"/data/%s\" inode=%s dev=%02x:%02x mode=0%o ouid=%s ogid=%s rdev=%02x:%02x obj=%s:%s:%s:s0 %s=%s cap_fp=%s cap_fi=%s cap_fe=0 cap_fver=0",
-			hdr, i, u.word("name"), u.num(), r.Intn(250), 0x21+i, mode, u.num(), u.num(), r.Intn(250), 0x31+i, u.word("ou"), u.word("or"), u.word("ot"), nt, nametype, u.word("fp"), u.word("fi")))
+		// the kernel logs name=(null) for objects reached through a file descriptor (fchmod, fchown, ftruncate ...):
+		// the parser drops the placeholder, so the record has no name key at all
+		name := `"/data/` + u.word("name") + `"`
+		if r.Chance(1, 8) {
+			name = "(null)"
+		}
+		add(fmt.Sprintf("type=PATH %s item=%d name=%s inode=%s dev=%02x:%02x mode=0%o ouid=%s ogid=%s rdev=%02x:%02x obj=%s:%s:%s:s0 %s=%s cap_fp=%s cap_fi=%s cap_fe=0 cap_fver=0",
+			hdr, i, name, u.num(), r.Intn(250), 0x21+i, mode, u.num(), u.num(), r.Intn(250), 0x31+i, u.word("ou"), u.word("or"), u.word("ot"), nt, nametype, u.word("fp"), u.word("fi")))
 	}
 	if r.Chance(1, 3) {
 		n := r.Range(1, 4)
